@@ -26,6 +26,7 @@ structure Delivery where
   locked : Bool
   alive : Bool
   curTarget : Option Entity
+  vals : List (CompId × Val) := []     -- the entity's component values as a callback reads them
 deriving Repr, Inhabited, DecidableEq
 
 namespace Ev
@@ -91,7 +92,13 @@ def observe (w : World) (sub : Nat) (ev : Event) : Delivery :=
       | some l => if (w.tableRel l.tbl).isSome then some (w.tableOf l.tbl).target else none
       | none => none
     else none
-  { sub := sub, ev := ev, locked := w.isLocked, alive := al, curTarget := cur }
+  let vals : List (CompId × Val) :=
+    if al then
+      match w.index.getD ev.entity.id none with
+      | some l => (w.tableIds l.tbl).zip ((w.tableOf l.tbl).rows.getD l.row default).vals
+      | none => []
+    else []
+  { sub := sub, ev := ev, locked := w.isLocked, alive := al, curTarget := cur, vals := vals }
 
 /-- The world-side pattern `trigger := subs & bits; if trigger != 0 && subscribes(...) { Notify }`,
     with the arguments the call site passes to `subscribes`. -/
